@@ -53,6 +53,12 @@ def run(R):
     R.rule("C08-R5", "budget failures propagate below the controller: in every helper of hybrid.rs that itself returns a Result with a "
                      "budget / compile / reason error, the failure edge of a budgeted step never leads to an Ok return (a partial "
                      "compilation must not be handed up as if it were complete - callers add its value to certified bounds)")
+    R.rule("C08-R7", "a choice of an exclusive group is never registered as an independent variable: in the lineage compiler every call of "
+                     "SddManager::ensure_variable (weights p and 1-p, kind Independent) is control-dependent on the seed's kind being Independent; "
+                     "exclusive choices go through ensure_variable_weights with negative weight 1 only. ensure_variable overwrites weights and kind, "
+                     "so a later independent registration silently turns the choice into a Bernoulli variable and the result - still reported as "
+                     "Exact - is wrong whenever a model has that choice false")
+    r7(R)
     R.rule("C08-R6", "search states are not pruned by a partial key: in enumerate_proofs a state taken from the frontier may be dropped through "
                      "a seen-set only if the key covers both what the state has proved so far and what it still has to prove (proof and "
                      "pending) - two states at the same lineage node with the same partial proof can still differ in their remaining conjuncts")
@@ -518,3 +524,23 @@ def _chain_consumers(b, c):
             break
         locs |= more
     return out
+
+
+
+def r7(R):
+    from lib import guards as G
+    prog = R.prog
+    b = R.body("C08-R7", "hybrid::compile_lineage_to_sdd_with_clock", crate="shared")
+    if b is None:
+        return
+    R.saw(b)
+    calls = [(x, c) for x in prog.family(b.key) for c in x.calls() if c.name() == "ensure_variable"]
+    weights = [(x, c) for x in prog.family(b.key) for c in x.calls() if c.name() == "ensure_variable_weights"]
+    R.ob("C08-R7", "registers", "the lineage compiler registers variables (independent: %d site, with explicit weights: %d site)" % (len(calls), len(weights)),
+         len(calls) + len(weights) >= 1, where=b.where())
+    for x, c in calls:
+        conds = G.conditions(x, c.bb)
+        ok = any(cd.get("kind") == "variant" and cd.get("variant") == "Independent" and (cd.get("adt") or "").endswith("SeedKind") for cd in conds)
+        R.ob("C08-R7", "independent-only", "ensure_variable is called only for a seed whose kind was matched as Independent", ok, where=x.where(c.ln),
+             detail=None if ok else "every referenced seed is (re)registered as independent, also the choices of an exclusive group: their negative weight "
+             "becomes 1-p while their unreferenced siblings keep 1")
